@@ -29,6 +29,8 @@ DM = (
     ("cls", "Hand", ("k", 1), ("v", 7)), ("cls", "Base", ("k", 2), ("v", 2)), ("raw", "junk"), ("raw", 3), ("raw", None),
     ("cls", "Item", ("p", 1)), ("cls", "Sub", ("k", 2), ("v", 7)), ("cls", "Hand", ("k", 2), ("v", 2)),
     ("cls", "USub", ("k", 1), ("v", 2), ("w", 5)),
+    ("cls", "Part", ("k", 1), ("v", 7)), ("cls", "Part", ("k", 2), ("v", 7)), ("cls", "Part", ("k", 7), ("v", 1)),
+    ("cls", "Rev", ("k", 1), ("v", 7)), ("cls", "Rev", ("k", 7), ("v", 1)), ("cls", "Rev", ("k", 2), ("v", 2)),
 )
 DH = (
     ("cls", "Holder", ("inner", ("@", "DM", 0)), ("n", 1)), ("cls", "Holder", ("inner", ("@", "DM", 1)), ("n", 2)),
@@ -37,8 +39,15 @@ DH = (
 )
 DY = ((("p", 1), ("q", 7)), (("p", 2), ("q", 2)), (("p", 3), ("q", 7)))
 WSPEC = (("DM", "Base", DM), ("DH", "Holder", DH), ("DY", "Item", DY))
-FIELDS = {"Base": ("k", "v"), "Sub": ("k", "v"), "USub": ("k", "v", "w"), "Hand": ("k", "v")}
-VALS = {"k": (1, 2), "v": (7, 2), "w": (9, 5)}
+MEMBER_KINDS = (("cls", "Base", ("k", 1)), ("cls", "Base", ("k", 2)), ("cls", "Sub", ("k", 1)), ("cls", "USub", ("k", 1)),
+                ("cls", "Hand", ("k", 1)), ("raw", "junk"), ("raw", None), ("cls", "Item", ("p", 1)))
+FIELDS = {"Base": ("k", "v"), "Sub": ("k", "v"), "USub": ("k", "v", "w"), "Hand": ("k", "v"), "Part": ("k", "v"),
+          "Rev": ("k", "v")}
+# the order in which the constructor takes positional values (Rev's __init__ is (v, k); Part's is (k, v) although an
+# inherited keyword-only field is declared first)
+POSITIONAL = {"Base": ("k", "v"), "Sub": ("k", "v"), "USub": ("k", "v"), "Hand": ("k", "v"), "Part": ("k", "v"),
+              "Rev": ("v", "k")}
+VALS = {"k": (1, 2, 7), "v": (7, 2, 1), "w": (9, 5)}
 
 
 def bounds(tier):
@@ -49,7 +58,7 @@ def bounds(tier):
 
 def cases(tier, inst):
     # (a) type filter, however the variable was declared
-    for cls in ("Base", "Sub", "USub", "Hand", "Item"):
+    for cls in ("Base", "Sub", "USub", "Hand", "Item", "Part", "Rev"):
         for style in ("from", "let", "sharedfrom"):
             for cond in (False, True):
                 yield ("type", cls, style, cond)
@@ -61,14 +70,15 @@ def cases(tier, inst):
                     yield ("kw", cls, tuple(zip(sub, vals)))
         # positional after the domain: every prefix of the signature (k, v are the first two parameters everywhere;
         # USub's third parameter is the inherited `tag`, not `w`)
+        ps = POSITIONAL[cls]
         for r in range(1, 3):
-            for vals in itertools.product(*[VALS[f] for f in fs[:r]]):
-                yield ("pos", cls, tuple(zip(fs[:r], vals)))
+            for vals in itertools.product(*[VALS[f] for f in ps[:r]]):
+                yield ("pos", cls, tuple(zip(ps[:r], vals)))
         # mixed: first positional, rest keyword
-        for vals in itertools.product(VALS[fs[0]], VALS[fs[1]]):
-            yield ("mixed", cls, ((fs[0], vals[0]), (fs[1], vals[1])))
+        for vals in itertools.product(VALS[ps[0]], VALS[ps[1]]):
+            yield ("mixed", cls, ((ps[0], vals[0]), (ps[1], vals[1])))
     # (c) variables / attribute expressions as values
-    for cls in ("Base", "Sub", "Hand"):
+    for cls in ("Base", "Sub", "Hand", "Part", "Rev"):
         for how in ("kw", "pos"):
             yield ("varval", cls, how, "k=y.p")
             yield ("varval", cls, how, "k=y.p,v=y.q")
@@ -82,6 +92,13 @@ def cases(tier, inst):
             for how in ("kw", "pos"):
                 for n in (None, 1):
                     yield ("nested", inner_cls, inner_kw, how, n)
+    # (f) every small mixed-type domain: type filter and one field constraint, however the variable is declared
+    for n in range(0, (3 if tier == "thorough" else 2) + 1):
+        for dom in itertools.product(range(len(MEMBER_KINDS)), repeat=n):
+            for cls in ("Base", "Sub", "USub", "Hand"):
+                for style in ("from", "let"):
+                    yield ("tinytype", dom, cls, style, False)
+                yield ("tinytype", dom, cls, "from", True)
     # (e) one From object shared by two declarations
     for c1, c2 in (("Base", "Base"), ("Base", "Sub"), ("Sub", "Base"), ("Hand", "Base"), ("Base", "USub")):
         for join in ("none", "k"):
@@ -92,10 +109,26 @@ def lit_pairs(pairs):
     return tuple((f, L(v)) for f, v in pairs)
 
 
+def wspec_of(case):
+    if case[0] == "tinytype":
+        return (("DM", "Base", tuple(MEMBER_KINDS[i] for i in case[1])),)
+    return WSPEC
+
+
 def build_case(case, world, inst):
     """-> (query AST for the predicate form, query AST for the explicit form, expected objects/rows, kind)"""
     fam = case[0]
     dm = world["DM"]
+    if fam == "tinytype":
+        _, dom, cls, style, constrained = case
+        if constrained:
+            q = ("Q", "an", "entity", ("pform", cls, "DM", (), (("k", L(1)),)), (), ())
+            qe = ("Q", "an", "entity", X, (("cmp", "eq", A(X, "k"), L(1)),), (("x", "let", cls, "DM"),))
+        else:
+            q = ("Q", "an", "entity", X, (), (("x", style, cls, "DM"),))
+            qe = None
+        exp = [o for o in dm if isinstance(o, W.CLASSES[cls]) and (not constrained or o.k == inst.v(1))]
+        return q, qe, exp, "list"
     if fam == "type":
         _, cls, style, cond = case
         conds = (("cmp", "ge", A(X, "p" if cls == "Item" else "k"), L(1)),) if cond else ()
@@ -118,7 +151,13 @@ def build_case(case, world, inst):
         _, cls, how, spec = case
         vy = (("y", "let", "Item", "DY"),)
         fields = (("k", A(Y, "p")),) if spec == "k=y.p" else (("k", A(Y, "p")), ("v", A(Y, "q")))
-        term = ("pform", cls, "DM", (), fields) if how == "kw" else ("pform", cls, "DM", tuple(t for _, t in fields), ())
+        fd = dict(fields)
+        prefix = POSITIONAL[cls][:len(fd)]
+        if how == "pos" and set(prefix) == set(fd):
+            # positional values go in the constructor's own parameter order
+            term = ("pform", cls, "DM", tuple(fd[f] for f in prefix), ())
+        else:   # (a lone k cannot be given positionally when k is not the first parameter: keyword then)
+            term = ("pform", cls, "DM", (), fields)
         q = ("Q", "an", "setof", (("bound", "x", term), Y), (), vy)
         qe = ("Q", "an", "setof", (X, Y), tuple(("cmp", "eq", A(X, f), t) for f, t in fields),
               (("x", "let", cls, "DM"),) + vy)
@@ -185,12 +224,12 @@ def lab(kind, res):
 
 def run_case(case, inst):
     def body():
-        world = build_world(WSPEC, inst)
+        world = build_world(wspec_of(case), inst)
         q, qe, exp, kind = build_case(case, world, inst)
         got = evaluate(q, world, inst)
         gote = None
         if qe is not None:
-            world2 = build_world(WSPEC, inst)
+            world2 = build_world(wspec_of(case), inst)
             gote = lab(kind, evaluate(qe, world2, inst))
         n = len(world["DM"])
         return lab(kind, got), gote, lab(kind, exp), kind, n
@@ -210,9 +249,9 @@ def run_case(case, inst):
 def describe(case, inst):
     world = None
     try:
-        w = build_world(WSPEC, inst)
+        w = build_world(wspec_of(case), inst)
         q, qe, exp, kind = build_case(case, w, inst)
         src = Q.up_query(q, inst) + ("\n# explicit form: " + Q.up_query(qe, inst) if qe else "")
     except Exception as e:     # describing must never fail a run
         src = f"<{e}>"
-    return Q.up_world(WSPEC, inst) + "\n" + src + "\nresult = list(q.evaluate())   # expected: isinstance filter + field equalities"
+    return Q.up_world(wspec_of(case), inst) + "\n" + src + "\nresult = list(q.evaluate())   # expected: isinstance filter + field equalities"
